@@ -1240,12 +1240,12 @@ impl Point {
 
         // Adjust signs so that we have nonnegative multipliers.
         let (P1, d1h, d1l) = if (c1h >> 31) != 0 {
-            (*R, !c1h.wrapping_add((c1l == 0) as u32), c1l.wrapping_neg())
+            (*R, (!c1h).wrapping_add((c1l == 0) as u32), c1l.wrapping_neg())
         } else {
             (-R, c1h, c1l)
         };
         let (P2, d2h, d2l) = if (c0h >> 31) != 0 {
-            (self, !c0h.wrapping_add((c0l == 0) as u32), c0l.wrapping_neg())
+            (self, (!c0h).wrapping_add((c0l == 0) as u32), c0l.wrapping_neg())
         } else {
             (-self, c0h, c0l)
         };
